@@ -138,6 +138,8 @@ class Scheduler:
         self.switches = 0
         self.lockstate: dict = {}
         self.remote_tag = None
+        self.gc_rng = None
+        self.gc_prob = 0.0
         self.overlap = False  # two tasks of one phase were inside an operation at once
 
     # ------------------------------------------------------------------ set-up
@@ -275,6 +277,12 @@ class Scheduler:
         self.step += 1
         cur.steps += 1
         self.log.append((self.step, cur.name, kind, detail))
+        if self.gc_rng is not None and self.gc_rng.random() < self.gc_prob:
+            # the cyclic garbage collector runs at a moment of its own choosing: here
+            import gc
+
+            gc.collect()
+            self.count("gc_collect")
         if self.on_point is not None:
             self.on_point(self, cur, kind, detail)
         if self.step >= self.budget:
